@@ -21,6 +21,25 @@ Anything else — another statement kind, another local, a module-level name oth
 broken obligation.  (The language cannot express state that survives a call, so "dispatch keeps no
 state between calls / mappers" is a property of every table this reader can produce.)
 
+`Mapper.map_foreign` is read TEST BY TEST into `C04ForeignSource` (lean/PV/Model/ForeignTable.lean):
+
+    isinstance(expr, primitives.G)       constLive      `primitives` IS pymbolic.primitives and G the
+                                                        global the register functions rebind: looked
+                                                        up through the module when the mapper is called
+    primitives.is_constant(expr)         constLive      (reads G in its own module, at call time)
+    isinstance(expr, <module-level name / attribute of another module holding a tuple of number
+                      classes>)          constCaptured  a value made when the module was imported
+    for C, M in TABLE: if isinstance(expr, C): return getattr(self, M)(expr, *args, **kwargs)
+                                         the rows of the module-level literal TABLE; a
+                                         `primitives.G` inside it is constCaptured as well
+    is_numpy_array(expr)                 numpyArray     (the function's body is read)
+    isinstance(expr, list | tuple)       builtinList | builtinTuple
+
+each branch `return self.<handler>(expr, *args, **kwargs)`, the final `raise <Exception>(…)`; and
+`register_constant_class` / `unregister_constant_class` / `is_constant` of pymbolic/primitives.py
+statement by statement (`global G; G += (class_,)`, `global G; tmp = list(G); tmp.remove(class_);
+G = tuple(tmp)`, `return isinstance(value, G)` — ONE global, no other function rebinding it).
+
 Also recorded: `Mapper.rec is Mapper.__call__`, which classes of `pymbolic.mapper` define
 `__call__` / `rec` / `rec_fallback` themselves, and the body of `combine` of `CombineMapper` and
 `Collector` (the fold step of the stock combine traversals; the same reader as C09's,
@@ -187,6 +206,304 @@ def read_combine(cls):
     return kind
 
 
+# {{{ `Mapper.map_foreign` and the run-time registry of number classes
+
+REGISTRY_FUNCS = ("register_constant_class", "unregister_constant_class", "is_constant")
+
+
+def _plain_fn(fn, what):
+    """a module-level function read from its own source: no wrapper, no closure, no decorator"""
+    if not inspect.isfunction(fn):
+        raise ExtractError(f"{what}: not a plain function")
+    if getattr(fn, "__wrapped__", None) is not None or fn.__closure__:
+        raise ExtractError(f"{what}: a wrapper / closure")
+    node = _fn_ast(fn, what)
+    if node.decorator_list:
+        raise ExtractError(f"{what}: decorated ({ast.unparse(node.decorator_list[0])})")
+    return node
+
+
+def _global_decl(body, what):
+    """leading `global G` -> (G, remaining statements)"""
+    if not body or not isinstance(body[0], ast.Global) or len(body[0].names) != 1:
+        raise ExtractError(f"{what}: does not start with `global <one name>`")
+    return body[0].names[0], body[1:]
+
+
+def read_registry_fns():
+    """`register_constant_class`, `unregister_constant_class`, `is_constant` of pymbolic.primitives,
+    statement by statement -> (global name, RegBody of each).  The three must be functions OF
+    that module (their globals are the module's namespace: the `global` statement rebinds the
+    attribute `pymbolic.primitives.<G>`)."""
+    import pymbolic.primitives as prim
+    out = {}
+    for name in REGISTRY_FUNCS:
+        what = f"primitives.{name}"
+        fn = vars(prim).get(name)
+        node = _plain_fn(fn, what)
+        if fn.__globals__ is not vars(prim):
+            raise ExtractError(f"{what}: not defined in pymbolic.primitives itself")
+        for g in ("isinstance", "list", "tuple"):
+            if g in fn.__globals__:
+                raise ExtractError(f"{what}: `{g}` is shadowed in the module")
+        a = node.args
+        if (len(a.args) != 1 or a.vararg or a.kwarg or a.kwonlyargs or a.posonlyargs or a.defaults):
+            raise ExtractError(f"{what}: signature is not one positional parameter")
+        par = a.args[0].arg
+        body = _body(node)
+        src = [ast.unparse(x) for x in body]
+        if name == "register_constant_class":
+            g, rest = _global_decl(body, what)
+            if [ast.unparse(x) for x in rest] != [f"{g} += ({par},)"]:
+                raise ExtractError(f"{what}: body is not `{g} += ({par},)`: {src}")
+            out[name] = ("appendOne", g)
+        elif name == "unregister_constant_class":
+            g, rest = _global_decl(body, what)
+            if (len(rest) != 3 or not isinstance(rest[0], ast.Assign)
+                    or not _name(rest[0].targets[0])):
+                raise ExtractError(f"{what}: unreadable body {src}")
+            t = rest[0].targets[0].id
+            if t == g:
+                raise ExtractError(f"{what}: the temporary is the registry itself")
+            if [ast.unparse(x) for x in rest] != [f"{t} = list({g})", f"{t}.remove({par})",
+                                                  f"{g} = tuple({t})"]:
+                raise ExtractError(f"{what}: body is not list / remove / tuple: {src}")
+            out[name] = ("removeFirst", g)
+        else:
+            if len(body) != 1 or not isinstance(body[0], ast.Return) or body[0].value is None:
+                raise ExtractError(f"{what}: body is not one return: {src}")
+            v = body[0].value
+            if not (isinstance(v, ast.Call) and _name(v.func, "isinstance") and not v.keywords
+                    and len(v.args) == 2 and _name(v.args[0], par) and _name(v.args[1])):
+                raise ExtractError(f"{what}: does not return isinstance({par}, <global>): {src}")
+            g = v.args[1].id
+            if g in (par,) or g not in fn.__globals__:
+                raise ExtractError(f"{what}: `{g}` is not a module global")
+            out[name] = ("isinstanceOf", g)
+    gs = {g for _k, g in out.values()}
+    if len(gs) != 1:
+        raise ExtractError(f"the registry functions do not agree on ONE module global: {sorted(gs)}")
+    g = gs.pop()
+    # nothing else in the module rebinds the global after import (assignments at module level
+    # that build the initial tuple are fine: they run once, before any mapper exists)
+    tree = ast.parse(inspect.getsource(prim))
+    for node in ast.walk(tree):
+        if isinstance(node, (ast.FunctionDef, ast.AsyncFunctionDef)) and node.name not in REGISTRY_FUNCS:
+            for sub in ast.walk(node):
+                if isinstance(sub, ast.Global) and g in sub.names:
+                    raise ExtractError(f"primitives.{node.name} also declares `global {g}`")
+    return g, out
+
+
+def _numpy_array_fn(fn, what):
+    """`def is_numpy_array(val): return isinstance(val, numpy.ndarray)` with the real numpy"""
+    node = _plain_fn(fn, what)
+    a = node.args
+    body = _body(node)
+    if (len(a.args) != 1 or a.vararg or a.kwarg or a.kwonlyargs or a.defaults or len(body) != 1
+            or ast.unparse(body[0]) != f"return isinstance({a.args[0].arg}, numpy.ndarray)"):
+        raise ExtractError(f"{what}: body is not `return isinstance(<param>, numpy.ndarray)`")
+    import numpy
+    if fn.__globals__.get("numpy") is not numpy or "isinstance" in fn.__globals__:
+        raise ExtractError(f"{what}: `numpy` / `isinstance` are not the standard ones")
+    return "numpyArray"
+
+
+def _classes_value_kind(val, what, src):
+    """a VALUE found where the source names no module attribute: what it is a copy of"""
+    import numpy
+    import pymbolic.primitives as prim
+    if val is list or val == (list,):
+        return "builtinList"
+    if val is tuple or val == (tuple,):
+        return "builtinTuple"
+    if val is numpy.ndarray or val == (numpy.ndarray,):
+        return "numpyArray"
+    if isinstance(val, tuple) and val and all(isinstance(c, type) for c in val) and (
+            val is prim.VALID_CONSTANT_CLASSES or int in val or float in val):
+        return "constCaptured"
+    raise ExtractError(f"{what}: cannot tell what `{src}` holds")
+
+
+def _classes_expr(c, fn, g, what, at_import):
+    """the second argument of an `isinstance` test -> FTest name.  `at_import`: the expression is
+    evaluated when the module is imported (it sits in a module-level table), not when the mapper
+    is called."""
+    import numpy
+    import pymbolic.primitives as prim
+    src = ast.unparse(c)
+    glb = fn.__globals__
+    if isinstance(c, ast.Tuple) and len(c.elts) == 1:
+        return _classes_expr(c.elts[0], fn, g, what, at_import)
+    if isinstance(c, ast.Name):
+        if c.id in ("list", "tuple") and c.id not in glb:
+            return "builtinList" if c.id == "list" else "builtinTuple"
+        if c.id in glb:
+            # a global of the mapper module: whatever it holds was put there at import time
+            kind = _classes_value_kind(glb[c.id], what, src)
+            return kind
+        raise ExtractError(f"{what}: unknown name `{src}`")
+    if isinstance(c, ast.Attribute) and isinstance(c.value, ast.Name):
+        mod = glb.get(c.value.id)
+        if mod is prim and c.attr == g:
+            return "constCaptured" if at_import else "constLive"
+        if mod is numpy and c.attr == "ndarray":
+            return "numpyArray"
+        if inspect.ismodule(mod) and hasattr(mod, c.attr):
+            kind = _classes_value_kind(getattr(mod, c.attr), what, src)
+            # an attribute of ANOTHER module than the one whose global is rebound: a copy
+            return kind
+    raise ExtractError(f"{what}: unreadable class expression `{src}`")
+
+
+def read_foreign_test(t, fn, g, what):
+    import pymbolic.primitives as prim
+    src = ast.unparse(t)
+    glb = fn.__globals__
+    if not (isinstance(t, ast.Call) and not t.keywords and t.args and _name(t.args[0], "expr")):
+        raise ExtractError(f"{what}: unreadable test `{src}`")
+    f = t.func
+    if _name(f, "isinstance") and len(t.args) == 2:
+        if "isinstance" in glb:
+            raise ExtractError(f"{what}: `isinstance` is shadowed in the module")
+        return _classes_expr(t.args[1], fn, g, what, False)
+    if len(t.args) == 1:
+        target = None
+        if isinstance(f, ast.Name):
+            target = glb.get(f.id)
+        elif isinstance(f, ast.Attribute) and isinstance(f.value, ast.Name) \
+                and inspect.ismodule(glb.get(f.value.id)):
+            target = getattr(glb[f.value.id], f.attr, None)
+        if target is not None and target is vars(prim).get("is_constant"):
+            return "constLive"       # reads the global in its own module, at call time
+        if inspect.isfunction(target):
+            return _numpy_array_fn(target, f"{what}: {src}")
+    raise ExtractError(f"{what}: unreadable test `{src}`")
+
+
+def _foreign_branch(stmts, what):
+    """`return self.<handler>(expr, *args, **kwargs)` -> handler"""
+    if len(stmts) == 1 and isinstance(stmts[0], ast.Return):
+        v = stmts[0].value
+        if (isinstance(v, ast.Call) and isinstance(v.func, ast.Attribute)
+                and _name(v.func.value, "self") and _passes_on(v)):
+            return v.func.attr
+    raise ExtractError(f"{what}: branch is not `return self.<handler>(expr, *args, **kwargs)`: "
+                       f"`{ast.unparse(stmts[0]) if stmts else ''}`")
+
+
+def _raise_name(stmts, what):
+    if len(stmts) == 1 and isinstance(stmts[0], ast.Raise) and stmts[0].exc is not None:
+        e = stmts[0].exc
+        e = e.func if isinstance(e, ast.Call) else e
+        if isinstance(e, ast.Name):
+            return e.id
+    raise ExtractError(f"{what}: does not end in `raise <Exception>(…)`")
+
+
+def _module_level_table(fn, name, g, what):
+    """a module-level tuple `NAME = ((<classes>, "<handler>"), …)` of the mapper module: the
+    class expressions are evaluated ONCE, when the module is imported"""
+    mod = inspect.getmodule(fn)
+    tree = ast.parse(inspect.getsource(mod))
+    defs = []
+    for node in ast.walk(tree):
+        tgts = []
+        if isinstance(node, ast.Assign):
+            tgts = node.targets
+        elif isinstance(node, (ast.AnnAssign, ast.AugAssign)):
+            tgts = [node.target]
+        if any(_name(t, name) for t in tgts):
+            defs.append(node)
+    if len(defs) != 1 or defs[0] not in tree.body or isinstance(defs[0], ast.AugAssign) \
+            or defs[0].value is None:
+        raise ExtractError(f"{what}: `{name}` is not assigned exactly once at module level")
+    val = defs[0].value
+    if not isinstance(val, (ast.Tuple, ast.List)):
+        raise ExtractError(f"{what}: `{name}` is not a literal table")
+    rows = []
+    for row in val.elts:
+        if not (isinstance(row, (ast.Tuple, ast.List)) and len(row.elts) == 2
+                and isinstance(row.elts[1], ast.Constant) and isinstance(row.elts[1].value, str)):
+            raise ExtractError(f"{what}: unreadable row `{ast.unparse(row)}` of `{name}`")
+        rows.append((_classes_expr(row.elts[0], fn, g, f"{what}: {name}", True), row.elts[1].value))
+    return rows
+
+
+def read_map_foreign(cls, g):
+    """`map_foreign` -> (signature ok, [(FTest, handler)], exception of the final else).
+    Two shapes are read: the `if isinstance(...) … elif … else: raise` chain, and a loop
+    `for C, M in <module-level table>: if isinstance(expr, C): return getattr(self, M)(expr, …)`
+    followed by the `raise` (the table's class expressions are then import-time values)."""
+    fn, node, what = _fn(cls, "map_foreign")
+    body = _body(node)
+    if "getattr" in fn.__globals__:
+        raise ExtractError(f"{what}: `getattr` is shadowed in the module")
+    if len(body) == 1 and isinstance(body[0], ast.If):
+        chain = []
+        st = body[0]
+        while True:
+            chain.append((read_foreign_test(st.test, fn, g, what), _foreign_branch(st.body, what)))
+            if len(st.orelse) == 1 and isinstance(st.orelse[0], ast.If):
+                st = st.orelse[0]
+                continue
+            return _sig_ok(node), chain, _raise_name(st.orelse, what)
+    if len(body) == 2 and isinstance(body[0], ast.For) and not body[0].orelse:
+        loop = body[0]
+        tgt = loop.target
+        if (isinstance(tgt, ast.Tuple) and len(tgt.elts) == 2 and all(_name(e) for e in tgt.elts)
+                and _name(loop.iter) and len(loop.body) == 1 and isinstance(loop.body[0], ast.If)
+                and not loop.body[0].orelse):
+            cv, mv = tgt.elts[0].id, tgt.elts[1].id
+            test = loop.body[0]
+            ret = test.body[0] if len(test.body) == 1 else None
+            if (ast.unparse(test.test) == f"isinstance(expr, {cv})" and isinstance(ret, ast.Return)
+                    and isinstance(ret.value, ast.Call) and _passes_on(ret.value)
+                    and ast.unparse(ret.value.func) == f"getattr(self, {mv})"
+                    and loop.iter.id in fn.__globals__):
+                rows = _module_level_table(fn, loop.iter.id, g, what)
+                return _sig_ok(node), rows, _raise_name(body[1:], what)
+    raise ExtractError(f"{what}: neither one if/elif chain nor a loop over a module-level table: "
+                       f"`{ast.unparse(body[0]).splitlines()[0][:100] if body else ''}`")
+
+
+SCANNED_MODULES = ("analysis", "c_code", "coefficient", "collector", "constant_converter",
+                   "constant_folder", "cse_tagger", "dependency", "differentiator", "distributor",
+                   "evaluator", "flattener", "flop_counter", "graphviz", "optimize",
+                   "persistent_hash", "stringifier", "substitutor", "unifier")
+
+
+def foreign_overriders():
+    """classes of pymbolic.mapper, its submodules and pymbolic.compiler that define `map_foreign`
+    in their own body"""
+    import importlib
+    mods = []
+    for name in ["pymbolic.mapper"] + [f"pymbolic.mapper.{m}" for m in SCANNED_MODULES] \
+            + ["pymbolic.compiler"]:
+        try:
+            mods.append(importlib.import_module(name))
+        except ImportError:
+            continue
+    out = set()
+    for mod in mods:
+        for name, k in vars(mod).items():
+            if inspect.isclass(k) and k.__module__ == mod.__name__ and "map_foreign" in k.__dict__:
+                out.add(k.__name__)
+    return sorted(out)
+
+
+def foreign_tables():
+    import pymbolic.mapper as pm
+    g, fns = read_registry_fns()
+    sig, chain, exc = read_map_foreign(pm.Mapper, g)
+    return dict(sig=sig, chain=chain, elseRaises=exc, registryGlobal=g,
+                register=fns["register_constant_class"],
+                unregister=fns["unregister_constant_class"],
+                isConstant=fns["is_constant"], overriders=foreign_overriders())
+
+# }}}
+
+
 def tables(ctx=None):
     import pymbolic.mapper as pm
     call_sig, call = read_routine(pm.Mapper, "__call__")
@@ -203,7 +520,8 @@ def tables(ctx=None):
                 combineMapperCombine=read_combine(pm.CombineMapper),
                 collectorCombine=read_combine(pm.Collector),
                 cachedCollectorMro=[c.__name__ for c in pm.CachedCollector.__mro__[:-1]],
-                cachedCombineMro=[c.__name__ for c in pm.CachedCombineMapper.__mro__[:-1]])
+                cachedCombineMro=[c.__name__ for c in pm.CachedCombineMapper.__mro__[:-1]],
+                foreign=foreign_tables())
 
 
 # {{{ Lean output
@@ -238,11 +556,14 @@ def lean_block(b, ind):
 def render(t):
     ov = "[" + ", ".join(f"({q(a)}, {q(b)})" for a, b in t["overriders"]) + "]"
     strs = lambda xs: "[" + ", ".join(q(x) for x in xs) + "]"      # noqa: E731
+    f = t["foreign"]
     return "\n".join([
         "import PV.Model.DispatchTable",
+        "import PV.Model.ForeignTable",
         "/- GENERATED by extract/dispatch.py from the live source of pymbolic/mapper/__init__.py",
-        "   (`Mapper.__call__`, `Mapper.rec_fallback`, `CombineMapper.combine`, `Collector.combine`)",
-        "   — do not edit. -/",
+        "   (`Mapper.__call__`, `Mapper.rec_fallback`, `Mapper.map_foreign`, `CombineMapper.combine`,",
+        "   `Collector.combine`) and of pymbolic/primitives.py (`register_constant_class`,",
+        "   `unregister_constant_class`, `is_constant`) — do not edit. -/",
         "namespace PV.Generated", "",
         "/-- `Mapper.__call__` / `Mapper.rec_fallback`, statement by statement -/",
         "def c04DispatchSource : C04DispatchSource :=",
@@ -259,6 +580,17 @@ def render(t):
         "/-- class names along the MRO of `CachedCollector` / `CachedCombineMapper` (without `object`) -/",
         f"def c04CachedCollectorMro : List String := {strs(t['cachedCollectorMro'])}",
         f"def c04CachedCombineMro : List String := {strs(t['cachedCombineMro'])}", "",
+        "/-- `Mapper.map_foreign` test by test (what each test refers to), and the functions of",
+        "`pymbolic.primitives` that rebind the registry global -/",
+        "def c04ForeignSource : C04ForeignSource :=",
+        f"  {{ sig := {lb(f['sig'])},",
+        "    chain := [" + ", ".join(f"(.{k}, {q(h)})" for k, h in f["chain"]) + "],",
+        f"    elseRaises := {q(f['elseRaises'])},",
+        f"    registryGlobal := {q(f['registryGlobal'])},",
+        f"    register := .{f['register'][0]} {q(f['register'][1])},",
+        f"    unregister := .{f['unregister'][0]} {q(f['unregister'][1])},",
+        f"    isConstant := .{f['isConstant'][0]} {q(f['isConstant'][1])},",
+        f"    overriders := {strs(f['overriders'])} }}", "",
         "end PV.Generated", ""])
 
 
